@@ -398,6 +398,8 @@ func (w *wenv) renew() {
 }
 
 func run(c *core.Ctx) {
+	runNodes(c)
+	c.Assume("part (nodes): two pubsub services over in-memory stores whose cluster survey is answered by the other store's real OnSurvey (no mesh transport); messages one second apart (ids carry the wall-clock second)")
 	ops := alphabet()
 	names := make([]string, len(ops))
 	for i, o := range ops {
@@ -446,6 +448,11 @@ func replay(c *core.Ctx, raw json.RawMessage) {
 		Ops []int `json:"ops"`
 	}
 	json.Unmarshal(raw, &cs)
+	var nc nodesCase
+	if json.Unmarshal(raw, &nc) == nil && nc.Part == "nodes" {
+		runNodes(c)
+		return
+	}
 	w := newWenv()
 	defer w.env.Close()
 	in := newInst(w, alphabet())
